@@ -209,6 +209,14 @@ def run(repo: Repo, chk: Check) -> None:
            what='the pairing is called with its arguments in the wrong groups/order')
     chk.ob('R-TEMPLATE', pc.qualname, okp, 'result is (one == product of pairings starting from one)', pc.loc, {'pushed': [vrepr(p[1])[:200] for p in pushed]},
            what='PAIRING_CHECK does not compare the product of the pairings with one')
+    # a list that names the same pair twice has two factors (the product is over the LIST, not over the distinct pairs)
+    h2 = _PairingHooks()
+    h2.repeat = 2
+    res2 = Interp(repo, h2, max_depth=2).run_function(pc, [Sym('stack'), [], Sym('context')], self_val=ClassRef('pytezos.michelson.instructions.crypto.PairingCheckInstruction'))
+    pushed2 = [e for p in res2 for e in p.events if isinstance(e, tuple) and e[0] == 'push']
+    nfac = vrepr(pushed2[0][1]).count('pairing(') if len(pushed2) == 1 else -1
+    chk.ob('R-TEMPLATE', pc.qualname, len(res2) == 1 and nfac == 2, 'a pair listed twice contributes two factors', pc.loc, {'factors': nfac, 'pushed': [vrepr(p[1])[:200] for p in pushed2]},
+           what=f'for the list [(P, Q); (P, Q)] the product has {nfac} factor(s): repeated pairs are counted once, so e(P,Q)^2 * e(-2P,Q) = 1 is rejected and invalid relations are accepted')
 
 
 class _LenHooks(Hooks):
@@ -251,7 +259,7 @@ class _PairingHooks(Hooks):
 
     def iterate(self, it, obj, node):
         if isinstance(obj, Sym) and obj.name == 'points':
-            return [Sym('pair')]
+            return [Sym('pair')] * getattr(self, 'repeat', 1)
         if isinstance(obj, Sym) and obj.name == 'pair':
             return [Sym('g1'), Sym('g2')]
         return NotImplemented
